@@ -208,6 +208,11 @@ Definition parent_is_dir (f : fs) (rel : path) : bool :=
   | _ => match fs_lookup f (parent rel) with Some (NDir _) => true | _ => false end
   end.
 
+(* mkdir(2) in a set-group-ID directory: the new directory is set-group-ID as well *)
+Definition sgid : N := 1024.
+Definition inherited_sgid (f : fs) (parentp : path) : N :=
+  match fs_lookup f parentp with Some (NDir pm) => N.land pm sgid | _ => 0 end.
+
 (* os.MkdirAll(path, mode) on the reversed path *)
 Fixpoint mkdir_all (umask m : N) (f : fs) (rp : path) : res fs :=
   match fs_lookup f (rev rp) with
@@ -218,7 +223,8 @@ Fixpoint mkdir_all (umask m : N) (f : fs) (rp : path) : res fs :=
       | [] => Ok (fs_set f [] (NDir (create_mode dir_create_bits umask m)))
       | _ :: rparent =>
           match mkdir_all umask m f rparent with
-          | Ok f' => Ok (fs_set f' (rev rp) (NDir (create_mode dir_create_bits umask m)))
+          | Ok f' => Ok (fs_set f' (rev rp) (NDir (N.lor (create_mode dir_create_bits umask m)
+                                                          (inherited_sgid f' (rev rparent)))))
           | Err e => Err e
           end
       end
